@@ -14,10 +14,11 @@ def codes(tz):
 
 
 def answers(z, walls):
+    from dateutil import tz
     out = []
     for w, fold in walls:
         dt = w.replace(tzinfo=z, fold=fold)
-        out.append((dt.utcoffset(), dt.tzname(), dt.dst()))
+        out.append((dt.utcoffset(), dt.tzname(), dt.dst(), tz.datetime_ambiguous(w, z), tz.datetime_exists(dt)))
     return out
 
 
@@ -27,9 +28,19 @@ def scenario(ctx, tz, pz, rng, policy_factory, label, prefill=0):
     shared = TM.vtimezone_zone(tz, pz, **text_kw)
     fresh = TM.vtimezone_zone(tz, pz, **text_kw)
     # wall times spread over the year (January / July give different components)
+    # ... and a small shared pool (the same key looked up by one task while another is inserting it), including wall
+    # times inside the fold and the gap of 2015
+    st, en = pz.transitions(2015)
+    pool = [(D.datetime(2015, 1, 10, 12), 0), (D.datetime(2015, 7, 10, 12), 0),
+            ((en + D.timedelta(seconds=pz.stdoff + 1800)), 0), ((en + D.timedelta(seconds=pz.stdoff + 1800)), 1),
+            ((st + D.timedelta(seconds=pz.stdoff + 1800)), 0)]
+
     def walls(n):
         out = []
         for _ in range(n):
+            if rng.random() < .5:
+                out.append(rng.choice(pool))
+                continue
             w = D.datetime(rng.choice([2015, 2016]), rng.choice([1, 1, 7, 7, 3, 11]), rng.randint(1, 28), rng.randint(0, 23), rng.randint(0, 59))
             out.append((w, rng.choice([0, 0, 1])))
         return out
